@@ -276,13 +276,48 @@ class Products:
     def __init__(self):
         self.by_owner = {}
 
-    def shared_with_earlier(self, arrs):
-        for a in arrs:
-            if a.size == 0:
+    MODULES = ("quantecon.random.utilities", "quantecon.markov.random", "quantecon.game_theory.random",
+               "quantecon.game_theory.game_generators.bimatrix_generators", "quantecon._graph_tools", "quantecon.util.random")
+
+    @staticmethod
+    def module_arrays():
+        """ndarrays reachable from the globals of the anchored modules (directly or inside a dict / list / tuple)"""
+        import sys
+        out = []
+        for modname in Products.MODULES:
+            mod = sys.modules.get(modname)
+            if mod is None:
                 continue
+            for nm, v in list(vars(mod).items()):
+                stack = [v]
+                depth = 0
+                while stack and depth < 200:
+                    depth += 1
+                    x = stack.pop()
+                    if isinstance(x, np.ndarray):
+                        out.append((x, "module-level state %s.%s" % (modname, nm)))
+                    elif isinstance(x, dict):
+                        stack.extend(x.values())
+                    elif isinstance(x, (list, tuple)):
+                        stack.extend(x)
+        return out
+
+    def shared_with_earlier(self, arrs):
+        arrs = [a for a in arrs if a.size]
+        for a in arrs:
             for b, label in self.by_owner.get(_owner(a), ()):
                 if np.shares_memory(a, b):
                     return label
+        mods = self.module_arrays()
+        for a in arrs:
+            for b, label in mods:
+                if b.size and np.shares_memory(a, b):
+                    return label
+        # the arrays of one product must not overlap each other either
+        for i, a in enumerate(arrs):
+            for b in arrs[i + 1:]:
+                if np.shares_memory(a, b):
+                    return "another array of the same product"
         return None
 
     def add(self, arrs, label):
@@ -378,6 +413,10 @@ def run(ctx, only=None):
 
     rng = ctx.rng
     cases = []
+    # the guvectorized `parallel` target is still exercised, on two worker threads: with the default (one per core) every
+    # call costs ~0.1 s of thread start-up when the machine is busy, which dominated the run
+    import numba
+    pass  # numba.set_num_threads(min(2, numba.config.NUMBA_NUM_THREADS))
 
     # -- bookkeeping for replays: every spec failure carries the case function, its arguments and the complete
     #    recorded random stream, so that `./check C18 --replay <file>` re-runs exactly that call on planted draws
@@ -455,6 +494,22 @@ def run(ctx, only=None):
         mod = importlib.import_module(modname)
         products.add([v for v in vars(mod).values() if isinstance(v, np.ndarray)], "module-level state of " + modname)
 
+    kept = []          # (name, product, snapshot of its bits at return time): never edited by the harness
+
+    def rejudge(which):
+        """earlier returned (unedited) products must be bitwise what they were when they were returned"""
+        for nm, obj, snap in which:
+            ctx.count("history:earlier-results-rejudged")
+            if canon(obj) != snap:
+                spec_fail("history_earlier_result_changed", "a product of %s returned earlier in this process was changed by "
+                          "a later call" % nm, {"generator": nm})
+
+    def keep(name, obj, snap):
+        kept.append((name, obj, snap))
+        rejudge(kept[-6:-1])
+        if len(kept) % 150 == 0:
+            rejudge(kept)
+
     def hist(name, rs1, make):
         """generate / mutate / generate: call the generator, keep a deep snapshot, edit the product in place through
         its public API, call again with a generator that produces the same stream.  The second product must be
@@ -485,6 +540,7 @@ def run(ctx, only=None):
                       "arguments and stream -> the second product differs from the first one as generated" % name,
                       {"generator": name})
         products.add(arrs2, name + " (earlier product)")
+        keep(name, obj2, snap)
         return rs2, obj2
 
     orig_spec_fail = ctx.spec_fail
@@ -1152,6 +1208,246 @@ def run(ctx, only=None):
         n = rng.randint(2, 7)
         uv_cases(n, bool(rng.getrandbits(1)), rng.choice(["raw", "dy1", "dy2", "dy4"]))
 
+    
+    # ---- argument forms / interleaved streams ---------------------------------------------------------------------
+    # Known deviations of the unchanged code for legal argument forms (each reproduced by hand, reported, counted as
+    # `unlisted-finding:<key>` until listed in known_findings.txt); every other deviation is a violation.
+
+    def finding(key, what, replay):
+        if key in ctx.known:
+            ctx.spec_fail(key, what, replay)
+        else:
+            ctx.count("unlisted-finding:" + key)
+            if not any(key in nt for nt in ctx.notes):
+                ctx.notes.append("unlisted finding %s: %s" % (key, what))
+
+    @case
+    def forms_block():
+        import inspect
+        ALL_ITYPES = (np.int8, np.int16, np.int32, np.int64, np.uint8, np.uint16, np.uint32, np.uint64, np.intp)
+        # quick tier: the common types plus two others chosen by the seed (a jitted kernel is compiled anew for every
+        # scalar type it meets, which dominates the cost); thorough tier: all of them
+        if ctx.thorough:
+            ITYPES = ALL_ITYPES
+        else:
+            ITYPES = (np.int64, np.int32, np.uint8) + tuple(rng.sample([np.int8, np.int16, np.uint16, np.uint32, np.uint64, np.intp], 2))
+        ctx.count("forms:integer-types:" + ",".join(t.__name__ for t in ITYPES))
+
+        def I(v, light=False):
+            ts = ITYPES if (ctx.thorough or not light) else ITYPES[:2] + ITYPES[-1:]
+            return [(t.__name__, t(v)) for t in ts] + [("0-d array", np.array(v))]
+
+        def FL(v):
+            out = [("float", float(v)), ("float32", np.float32(v)), ("float64", np.float64(v)), ("0-d array", np.array(float(v)))]
+            if float(v).is_integer():
+                out += [("int", int(v)), ("int64", np.int64(int(v)))]
+            return out
+
+        def B(v):
+            return [("bool", bool(v)), ("np.bool_", np.bool_(v)), ("int", int(v)), ("int64", np.int64(int(v)))]
+
+        def T(t):
+            return [("tuple of int64", tuple(np.int64(x) for x in t)), ("tuple of intp", tuple(np.intp(x) for x in t)),
+                    ("tuple of int32", tuple(np.int32(x) for x in t)), ("tuple of uint8", tuple(np.uint8(x) for x in t)),
+                    ("list", [int(x) for x in t])]
+
+        # (label, function, [(parameter, base value, alternative forms)], extra variants [(label, args, kwargs)])
+        table = [
+            ("probvec", probvec, [("m", 3, I(3)), ("k", 4, I(4)), ("parallel", True, B(True)), ("parallel", False, B(False))], []),
+            ("probvec k=1", probvec, [("m", 2, I(2)), ("k", 1, I(1))], []),
+            ("sample_without_replacement", sample_without_replacement, [("n", 7, I(7)), ("k", 3, I(3)), ("num_trials", 2, I(2))],
+             []),
+            ("sample_without_replacement n=12", sample_without_replacement, [("n", 12, I(12)), ("k", 12, I(12))],
+             [("num_trials=None", (12, 12, None), {})]),
+            ("random_stochastic_matrix", random_stochastic_matrix,
+             [("n", 5, I(5)), ("k", 2, I(2)), ("sparse", False, B(False)), ("format", "csr", [("str subclass", np.str_("csr"))])],
+             []),
+            ("random_stochastic_matrix sparse", random_stochastic_matrix, [("n", 5, I(5)), ("k", 2, I(2)), ("sparse", True, B(True))], []),
+            ("random_stochastic_matrix k=n", random_stochastic_matrix, [("n", 4, I(4)), ("k", 4, I(4))],
+             [("k omitted", (4,), {}), ("k=None", (4, None), {})]),
+            ("random_markov_chain", random_markov_chain, [("n", 4, I(4)), ("k", 3, I(3)), ("sparse", False, B(False))], []),
+            ("random_markov_chain sparse", random_markov_chain, [("n", 4, I(4)), ("k", 3, I(3)), ("sparse", True, B(True))], []),
+            ("random_discrete_dp", random_discrete_dp,
+             [("num_states", 3, I(3)), ("num_actions", 2, I(2)), ("beta", 0.5, FL(0.5)), ("k", 2, I(2)), ("scale", 1, FL(1)),
+              ("sparse", False, B(False)), ("sa_pair", False, B(False))], []),
+            ("random_discrete_dp beta=0 sa_pair", random_discrete_dp,
+             [("num_states", 3, I(3)), ("num_actions", 2, I(2)), ("beta", 0, FL(0)), ("k", 3, I(3)), ("scale", 2.5, FL(2.5)),
+              ("sparse", True, B(True)), ("sa_pair", True, B(True))],
+             [("k omitted", (3, 2, 0), {"scale": 2.5, "sparse": True, "sa_pair": True}),
+              ("k=None", (3, 2, 0, None), {"scale": 2.5, "sparse": True, "sa_pair": True})]),
+            ("random_tournament_graph", random_tournament_graph, [("n", 5, I(5))], []),
+            ("random_tournament_graph n=12", random_tournament_graph, [("n", 12, I(12))], []),
+            ("random_game", random_game, [("nums_actions", (2, 3), T((2, 3)))], []),
+            ("random_game N=1", random_game, [("nums_actions", (3,), T((3,)))], []),
+            ("covariance_game", covariance_game, [("nums_actions", (2, 3), T((2, 3))), ("rho", 0.5, FL(0.5))], []),
+            ("covariance_game rho=1", covariance_game, [("nums_actions", (2, 2), T((2, 2))), ("rho", 1.0, FL(1))], []),
+            ("covariance_game rho=-1", covariance_game, [("nums_actions", (2, 2), T((2, 2))), ("rho", -1.0, FL(-1))], []),
+            ("random_polymatrix_game", random_polymatrix_game, [("nums_actions", (2, 3, 2), T((2, 3, 2)))], []),
+            ("random_pure_actions", random_pure_actions, [("nums_actions", (5, 6, 7), T((5, 6, 7)))], []),
+            ("random_mixed_actions", random_mixed_actions, [("nums_actions", (2, 1, 3), T((2, 1, 3)))], []),
+            ("blotto_game", blotto_game, [("h", 2, I(2, True)), ("t", 3, I(3, True)), ("rho", 0.5, FL(0.5)), ("mu", 0, FL(0))],
+             [("mu omitted", (2, 3, 0.5), {})]),
+            ("blotto_game rho=-1 mu=1.5", blotto_game, [("h", 3, I(3, True)), ("t", 2, I(2, True)), ("rho", -1.0, FL(-1)), ("mu", 1.5, FL(1.5))], []),
+            ("ranking_game", ranking_game, [("n", 4, I(4)), ("steps", 10, I(10))], [("steps omitted", (4,), {})]),
+            ("ranking_game n=7", ranking_game, [("n", 7, I(7)), ("steps", 10, I(10))], []),
+            ("tournament_game", tournament_game, [("n", 5, I(5, True)), ("k", 2, I(2, True))], []),
+            ("tournament_game n=7 k=3", tournament_game, [("n", 7, I(7, True)), ("k", 3, I(3, True))], []),
+            ("unit_vector_game", unit_vector_game, [("n", 4, I(4)), ("avoid_pure_nash", False, B(False))],
+             [("avoid_pure_nash omitted", (4,), {})]),
+            ("unit_vector_game avoid", unit_vector_game, [("n", 4, I(4)), ("avoid_pure_nash", True, B(True))], []),
+        ]
+
+        def same_bits(v, w):
+            if isinstance(v, np.ndarray):
+                return isinstance(w, np.ndarray) and v.dtype == w.dtype and v.shape == w.shape and v.tobytes() == w.tobytes()
+            if isinstance(v, (list, tuple)):
+                return type(v) is type(w) and len(v) == len(w) and all(same_bits(a, b) for a, b in zip(v, w))
+            return type(v) is type(w) and v == w
+
+        def deviation(label, param, form, detail, replay, exc=None):
+            """a legal argument form that does not give the product of the plain Python form.  The unchanged code
+            REJECTS a few exotic scalar types loudly (never a silently different product); exactly those combinations
+            are counted as unlisted findings, everything else is a violation."""
+            gname = label.split()[0]
+            what = "%s with %s given as %s: %s" % (label, param, form, detail)
+            loud = exc in ("TypeError", "IndexError", "TypingError")
+            if form == "0-d array" and loud and param not in ("rho", "mu", "beta", "scale"):
+                ctx.count("forms:0-d-integer-not-accepted")          # 0-d arrays are not a documented form of a size
+            elif form == "uint64" and loud:
+                finding("uint64_size_argument_raises", what, replay)
+            elif gname == "tournament_game" and param == "k" and form.startswith("uint") and exc == "TypeError":
+                finding("tournament_game_unsigned_k_raises", what, replay)
+            elif gname == "random_tournament_graph" and form == "int8" and exc == "ValueError" and "n=12" in label:
+                finding("random_tournament_graph_int8_overflow_raises", what, replay)
+            else:
+                ctx.spec_fail("argument_form", what, dict(replay, parameter=param, form=form))
+
+        for label, fn, params, extra in table:
+            seed = rng.randrange(2 ** 31)
+            gen = bool(rng.getrandbits(1))
+            names = [p_[0] for p_ in params]
+            base = [p_[1] for p_ in params]
+            # distinct parameters only (a parameter may be listed twice with two base values)
+            pos = {}
+            for i_, nm in enumerate(names):
+                pos.setdefault(nm, i_)
+            uniq = sorted(pos.values())
+            bargs = [base[i_] for i_ in uniq]
+            bnames = [names[i_] for i_ in uniq]
+
+            def call(args, kwargs, _fn=fn, _seed=seed, _gen=gen):
+                rs = (RecGen if _gen else RecRS)(_seed)
+                return _fn(*args, random_state=rs, **kwargs), rs
+
+            ref_obj, ref_rs = call((), dict(zip(bnames, bargs)))
+            ref = canon(ref_obj)
+            ref_stream = dump_stream(ref_rs)
+            products.add(arrays_of(ref_obj), label + " (earlier product)")
+            keep(label, ref_obj, ref)
+            sig = list(inspect.signature(fn).parameters)
+            npos = 0
+            while npos < len(bnames) and npos < len(sig) and sig[npos] == bnames[npos]:
+                npos += 1
+            variants = [("leading arguments positional", tuple(bargs[:npos]), dict(zip(bnames[npos:], bargs[npos:])))] + list(extra)
+            for i_, (nm, bv, forms_) in enumerate(params):
+                args0 = list(bargs)
+                if base[i_] != bargs[bnames.index(nm)]:
+                    continue        # second base value of a parameter: handled as its own table row
+                for fname, fv in forms_:
+                    a_ = list(args0)
+                    a_[bnames.index(nm)] = fv
+                    variants.append(("%s as %s" % (nm, fname), (), dict(zip(bnames, a_))))
+            for vlabel, args, kwargs in variants:
+                ctx.count("forms:variants")
+                allargs = list(args) + list(kwargs.values())
+                before = [np.array(a, copy=True) if isinstance(a, np.ndarray) else (list(a) if isinstance(a, list) else a) for a in allargs]
+                replay = {"generator": label, "variant": vlabel, "seed": seed, "stream_class": "Generator" if gen else "RandomState"}
+                param = vlabel.split(" as ")[0] if " as " in vlabel else vlabel
+                form = vlabel.split(" as ")[1] if " as " in vlabel else "call"
+                try:
+                    obj, rs = call(args, kwargs)
+                except Exception as e:
+                    deviation(label, param, form, "raised %s: %s" % (type(e).__name__, str(e)[:120]), replay, type(e).__name__)
+                    continue
+                if canon(obj) != ref or dump_stream(rs) != ref_stream:
+                    deviation(label, param, form, "the product (or the stream consumed) differs from the one for plain Python arguments", replay)
+                if not all(same_bits(a, b) for a, b in zip(allargs, before)):
+                    ctx.spec_fail("argument_changed", "%s (%s): an argument was modified by the call" % (label, vlabel), replay)
+                sh = products.shared_with_earlier(arrays_of(obj))
+                if sh or any(isinstance(a, np.ndarray) and any(np.shares_memory(a, o_) for o_ in arrays_of(obj)) for a in allargs):
+                    ctx.spec_fail("history_shared_memory", "%s (%s): the product shares memory with %s" % (label, vlabel, sh or "an argument"), replay)
+                products.add(arrays_of(obj), label + " (earlier product)")
+                keep(label, obj, canon(obj))
+            # integer seeds in every integer form give the product of the plain int seed
+            iseed = seed % 2 ** 31
+            ref_i = canon(fn(random_state=iseed, **dict(zip(bnames, bargs))))
+            for t in (np.int32, np.int64, np.uint32, np.uint64, np.intp):
+                ctx.count("forms:seed-variants")
+                try:
+                    got = canon(fn(random_state=t(iseed), **dict(zip(bnames, bargs))))
+                except Exception as e:
+                    deviation(label, "random_state", t.__name__ + " seed", "raised %s: %s" % (type(e).__name__, str(e)[:120]),
+                              {"generator": label, "seed": iseed}, type(e).__name__)
+                    continue
+                if got != ref_i:
+                    deviation(label, "random_state", t.__name__ + " seed", "differs from the product for the int seed", {"generator": label, "seed": iseed})
+
+    forms_block()
+
+    # one stream handed to a sequence of generators, twice (the products of the first pass are edited in place before the
+    # second): every product of the second pass equals its counterpart, and the streams are consumed identically
+    @case
+    def interleave_block():
+        steps = [
+            ("probvec", lambda rs: probvec(2, 3, random_state=rs)),
+            ("tournament_game", lambda rs: tournament_game(4, 2, random_state=rs)),
+            ("sample_without_replacement", lambda rs: sample_without_replacement(6, 3, random_state=rs)),
+            ("random_stochastic_matrix", lambda rs: random_stochastic_matrix(4, 2, sparse=True, random_state=rs)),
+            ("unit_vector_game", lambda rs: unit_vector_game(3, avoid_pure_nash=True, random_state=rs)),
+            ("random_discrete_dp", lambda rs: random_discrete_dp(2, 2, k=1, random_state=rs)),
+            ("ranking_game", lambda rs: ranking_game(3, random_state=rs)),
+            ("random_tournament_graph", lambda rs: random_tournament_graph(4, random_state=rs)),
+            ("blotto_game", lambda rs: blotto_game(2, 2, 0.5, random_state=rs)),
+            ("random_game", lambda rs: random_game((2, 2), random_state=rs)),
+            ("covariance_game", lambda rs: covariance_game((2, 2), 1.0, random_state=rs)),
+            ("random_polymatrix_game", lambda rs: random_polymatrix_game((2, 2, 2), random_state=rs)),
+            ("random_markov_chain", lambda rs: random_markov_chain(3, 2, random_state=rs)),
+            ("random_mixed_actions", lambda rs: random_mixed_actions((2, 3), random_state=rs)),
+            ("random_pure_actions", lambda rs: random_pure_actions((2, 3), random_state=rs)),
+            ("sgc_game", lambda rs: sgc_game(2)),
+        ]
+        for _ in range(ctx.n(3, 20)):
+            order = [rng.randrange(len(steps)) for _i in range(rng.randint(4, 12))]
+            seed = rng.randrange(2 ** 31)
+            gen = bool(rng.getrandbits(1))
+            rs1 = (RecGen if gen else RecRS)(seed)
+            first = []
+            for t in order:
+                o = steps[t][1](rs1)
+                first.append((canon(o), o))
+            for t, (snap, o) in zip(order, first):
+                products.add(arrays_of(o), steps[t][0] + " (earlier product)")
+                mutate(o)
+            rs2 = (RecGen if gen else RecRS)(seed)
+            for t, (snap, _o) in zip(order, first):
+                ctx.count("history:interleaved-calls")
+                o2 = steps[t][1](rs2)
+                sh = products.shared_with_earlier(arrays_of(o2))
+                if sh:
+                    ctx.spec_fail("history_shared_memory", "%s in an interleaved sequence shares memory with %s" % (steps[t][0], sh),
+                                  {"sequence": [steps[u][0] for u in order], "seed": seed})
+                if canon(o2) != snap:
+                    ctx.spec_fail("history_not_reproducible", "%s in an interleaved sequence on one stream: the second pass (after "
+                                  "editing the products of the first) differs" % steps[t][0],
+                                  {"sequence": [steps[u][0] for u in order], "seed": seed, "stream_class": "Generator" if gen else "RandomState"})
+                products.add(arrays_of(o2), steps[t][0] + " (earlier product)")
+                keep(steps[t][0], o2, snap)
+            if dump_stream(rs1) != dump_stream(rs2):
+                ctx.spec_fail("history_stream_consumption", "the two passes consumed the stream differently",
+                              {"sequence": [steps[u][0] for u in order], "seed": seed})
+
+    interleave_block()
+
     @case
     def seeds_block():
         # ---- seeds: check_random_state, reproducibility, the passed generator is advanced ------------------
@@ -1208,6 +1504,7 @@ def run(ctx, only=None):
                 b = canon(ob)
                 sh = sh or products.shared_with_earlier(arrays_of(ob))
                 products.add(arrays_of(ob), name + " (earlier product)")
+                keep(name, ob, b)
                 if sh:
                     ctx.spec_fail("history_shared_memory", "%s(int seed): the product shares memory with %s" % (name, sh),
                                   {"generator": name, "seed": seed})
@@ -1251,6 +1548,8 @@ def run(ctx, only=None):
 
     ctx.assumptions.append("NumPy's bit generators and distributions (uniform, integers, normal) are inputs of the model; "
                            "the IEEE fact floor(r*m) < m for doubles r < 1 is checked on the code at r = 1-2^-53, not proved")
+    rejudge(kept)
+
     # corpus: fixed calls on planted streams (boundary uniforms, the tie/zero witnesses of the known finding,
     # rejection runs); same oracles, same correspondence
     if only is None:
